@@ -160,7 +160,7 @@ func c07(c *Ctx) (*report.Result, error) {
 						okMode := false
 						for _, g := range flow.NormGuards(flow.Guards(b)) {
 							if bo, isB := g.Cond.(*ssa.BinOp); isB {
-								if s, isS := flow.ConstString(bo.Y); isS && s == "lcm" && ((bo.Op == token.NEQ && g.Side) || (bo.Op == token.EQL && !g.Side)) {
+								if s, isS := flow.ConstString(bo.Y); isS && s == lcmMode(c) && ((bo.Op == token.NEQ && g.Side) || (bo.Op == token.EQL && !g.Side)) {
 									okMode = true
 								}
 							}
@@ -211,7 +211,7 @@ func c07(c *Ctx) (*report.Result, error) {
 			var modeIf *ssa.If
 			for _, g := range flow.NormGuards(flow.Guards(store.Block())) {
 				if bo, isB := g.Cond.(*ssa.BinOp); isB && bo.Op == token.EQL && g.Side {
-					if s, isS := flow.ConstString(bo.Y); isS && s == "lcm" {
+					if s, isS := flow.ConstString(bo.Y); isS && s == lcmMode(c) {
 						if p, okp := flow.FieldPath(flow.ResolveLoad(bo.X)); okp && strings.HasSuffix(p, ".shardCountConfig.Mode") {
 							okMode = true
 							modeIf = g.If
@@ -386,7 +386,7 @@ func checkLCMRemap(c *Ctx, res *report.Result, f *ssa.Function) {
 	okMode := false
 	for _, g := range flow.NormGuards(flow.Guards(mc.Block())) {
 		if bo, isB := g.Cond.(*ssa.BinOp); isB && bo.Op == token.EQL && g.Side {
-			if s, isS := flow.ConstString(bo.Y); isS && s == "lcm" {
+			if s, isS := flow.ConstString(bo.Y); isS && s == lcmMode(c) {
 				okMode = true
 			}
 		}
@@ -483,4 +483,12 @@ func traceShardValue(v ssa.Value, depth int) string {
 		return p
 	}
 	return "?"
+}
+
+// lcmMode is the current value of config.ShardCountLCM.
+func lcmMode(c *Ctx) string {
+	if v, ok := pkgConstString(c, "config", "ShardCountLCM"); ok {
+		return v
+	}
+	return "lcm"
 }
